@@ -189,7 +189,8 @@ func (f *Polynomial) Scale(c ff.Element) *Polynomial {
 // f. See also Scale.
 func (f *Polynomial) SetScale(c ff.Element) *Polynomial {
 	if c.IsZero() {
-		return f.baseRing.Zero()
+		f.coefs = make(map[[2]uint]ff.Element)
+		return f
 	}
 
 	for d := range f.coefs {
